@@ -54,7 +54,7 @@ type op struct {
 var methods = []string{"GET", "HEAD", "POST", "PUT", "DELETE", "OPTIONS", "", "head", "CONNECT"}
 
 // codes a history may send on purpose (informational, empty-body and error statuses included).
-var codes = []int{200, 201, 204, 301, 304, 404, 418, 500, 100, 103, 599, 999, 256, 512, 768, 300}
+var codes = []int{200, 201, 204, 301, 304, 404, 418, 500, 100, 103, 599, 999, 256, 512, 768, 300, 600, 750}
 
 type hookRun struct {
 	id     int
@@ -123,6 +123,22 @@ var model = porcupine.Model{
 	Equal: func(a, b interface{}) bool { return a.(int) == b.(int) },
 }
 
+// badStatus makes one WriteHeader of the history carry a code the underlying writer refuses.
+func badStatus(fg *tape.Stream, ops []op) {
+	if !fg.Chance(200) {
+		return
+	}
+	var idx []int
+	for i, x := range ops {
+		if x.Kind == opWriteHeader {
+			idx = append(idx, i)
+		}
+	}
+	if len(idx) > 0 {
+		ops[idx[fg.Intn(len(idx))]].Code = world.BadCodes[fg.Intn(len(world.BadCodes))]
+	}
+}
+
 // Run executes one simulated run.
 func (Engine) Run(t *tape.Tape, o eng.Opts) *eng.Result {
 	res := eng.NewResult()
@@ -153,6 +169,9 @@ func (Engine) Run(t *tape.Tape, o eng.Opts) *eng.Result {
 			x.Code = codes[gen.Intn(len(codes))]
 		case opWrite, opCopy, opWriteString:
 			x.N = 1 + gen.Intn(64)
+			if gen.Intn(40) == 7 {
+				x.N = 70000 // larger than the 32 KiB buffers of io.Copy and friends
+			}
 		case opBeforeNested:
 			x.HookID = hookID
 			hookID += 2 // the nested hook gets HookID+1
@@ -170,7 +189,13 @@ func (Engine) Run(t *tape.Tape, o eng.Opts) *eng.Result {
 		if fg.Chance(300) {
 			q.WPlan = append(q.WPlan, world.WFault{At: fg.Intn(4), Kind: 1 + fg.Intn(2), Keep: fg.Intn(8)})
 		}
-		if fg.Chance(200) { // F-bad-status: one WriteHeader carries a code the underlying writer refuses
+		for rep := 0; rep < 2; rep++ {
+			if rep == 1 && !fg.Chance(300) {
+				break
+			}
+			badStatus(fg, ops)
+		}
+		if false {
 			var idx []int
 			for i, x := range ops {
 				if x.Kind == opWriteHeader {
